@@ -6,4 +6,6 @@
 /* ghost index parameters: arbitrary keys at which universally quantified postconditions are stated.
  * The harness leaves them nondeterministic, so a clause proved at G_g holds for every key. */
 extern uint64_t G_g, G_h;
+extern int64_t  G_NOW;  /* the clock reading of the call under verification */
+extern uint64_t G_RAND; /* the outcome of the random source in the call under verification */
 #endif
